@@ -291,23 +291,32 @@ func TestVerifC10Server(t *testing.T) {
 		}
 		return c
 	}
-	// confirm: does this input, alone, kill a fresh server?
-	confirm := func(in verifkreq.Input) (bool, string) {
+	// confirm: does this input, alone, kill a fresh server? (killed, decided): decided=false when the fresh server could
+	// not even be pinged before the input was sent (box too busy) - then nothing is concluded from this attempt.
+	confirm := func(in verifkreq.Input) (killed bool, trace string, decided bool) {
 		c := start()
 		defer func() {
 			if !c.dead() {
 				c.kill()
 			}
 		}()
-		if !c.ping() {
-			return false, ""
+		up := false
+		for k := 0; k < 3 && !up; k++ {
+			up = c.ping()
+		}
+		if !up {
+			return false, "", false
 		}
 		c.send(in)
+		// a server that survived answers the next ping; one that is going down does not, and then its exit is awaited
+		if c.ping() && c.ping() && !c.dead() {
+			return false, "", true
+		}
 		select {
 		case <-c.exited:
-			return true, c.logTail()
-		case <-time.After(10 * time.Second):
-			return false, ""
+			return true, c.logTail(), true
+		case <-time.After(60 * time.Second):
+			return false, "", false
 		}
 	}
 	child := start()
@@ -352,13 +361,18 @@ func TestVerifC10Server(t *testing.T) {
 		trace := child.logTail()
 		deaths++
 		r.Count("server_deaths", 1)
-		// attribute: this input, else the one before it (the ping may have slipped in before the exit)
-		blamed := false
-		for _, j := range []int{i, i - 1} {
+		// attribute: this input, else one of the two before it (a ping may slip in between the panic and the exit)
+		blamed, undecided := false, false
+		for _, j := range []int{i, i - 1, i - 2} {
 			if j < 0 {
 				continue
 			}
-			if killed, tr := confirm(corpus[j]); killed {
+			killed, tr, decided := confirm(corpus[j])
+			if !decided {
+				undecided = true
+				continue
+			}
+			if killed {
 				class := c10sClass(corpus[j].Bytes, tr)
 				first := strings.SplitN(tr, "\n", 2)[0]
 				r.Violation(class, fmt.Sprintf("a %d-byte client stream (%s) kills the broker.Server process: %s", len(corpus[j].Bytes), corpus[j].Kind, first),
@@ -368,7 +382,7 @@ func TestVerifC10Server(t *testing.T) {
 			}
 		}
 		if !blamed {
-			r.Inconclusive(fmt.Sprintf("server process died around input %d (%s) but neither it nor its predecessor reproduces the death alone; output: %s", i, in.Kind, trace))
+			r.Inconclusive(fmt.Sprintf("server process died around input %d (%s) but no single input of the last three reproduces the death alone (undecided attempts: %v); output: %s", i, in.Kind, undecided, trace))
 		}
 		r.Case(verifkit.Hash("server", in.Bytes), complete)
 		child = start()
